@@ -6,7 +6,7 @@ import os
 from msdparser import MSDParserError
 
 from .. import gen, models, ops
-from ..core import RunResult, HarnessError
+from ..core import RunResult, HarnessError, shash
 from ..facades import Facade
 from ..models import (ATTRS, EXCLUDED_GAPS, INDOMAIN_GAPS, SM_FIELDS, RefSMChart, RefSSCChart,
                       RefSimfile, dep_roundtrip_ok, gap_classes, ref_emit, serialisable,
@@ -418,7 +418,7 @@ def _shape(model):
     items = tuple((k if k in models.MULTI or k in ("VERSION", "FREEZES", "ANIMATIONS") else "k",
                    vshape(v)) for k, v in model.items[:6])
     charts = tuple(len(c.items) for c in model.charts[:4])
-    return hash((items, charts)) & 0xffffff
+    return shash((items, charts)) & 0xffffff
 
 
 def _trim(x, n=1200):
